@@ -141,7 +141,9 @@ func (a *action) eventLog(sender common.Address) (common.Hash, []byte) {
 // ok=false: the request has no native representation at all (must therefore fail).
 func (a *action) nativeMsg(signer common.Address) (sdk.Msg, bool) {
 	who := sdk.AccAddress(signer.Bytes()).String()
-	coin := func() sdk.Coin { return sdk.Coin{Denom: sdk.DefaultBondDenom, Amount: sdk.NewIntFromBigInt(new(big.Int).Set(a.Amount))} }
+	coin := func() sdk.Coin {
+		return sdk.Coin{Denom: sdk.DefaultBondDenom, Amount: sdk.NewIntFromBigInt(new(big.Int).Set(a.Amount))}
+	}
 	switch a.Method {
 	case "delegate":
 		return &stakingtypes.MsgDelegate{DelegatorAddress: who, ValidatorAddress: a.Val, Amount: coin()}, true
